@@ -222,11 +222,20 @@ RESULTS = {
 
 RESULTS["tdint"] = dict(RESULTS["int"], yaml="TypeID", cxx="TypeID", lib_make="TypeID rv = (TypeID)(acc % 100000) + 3;")
 
+# the three-word spelling, with values above the signed range: C fronts only (a Fortran caller has no such values)
+ROWS["ushortint_v"] = dict(ROWS["ushort_v"], yaml="unsigned short int {n}", cxx="unsigned short int {n}",
+                           c_decl="unsigned short int {n} = {v};", vals=["0", "1", "40000", "65535", "32768", "42"])
+KIND_ROWS.append("ushortint_v")
 for _k, _T, _ty, _fd, _vals in NATIVE_KINDS:
     _vt = "vt_dbl" if _ty == "dbl" else "vt_int"
     RESULTS[_k] = dict(yaml=_T, cxx=_T, ty=_ty, lib_make="%s rv = (%s)((acc %% 100) + 3)%s;" % (_T, _T, " + 0.75f" if _ty == "dbl" else ""),
                        lib_out=_vt + "(rv);", c_decl=_T + " rv;", c_out=_vt + "(rv);")
     KIND_RESULTS.append(_k)
+
+RESULTS["ushortint"] = dict(RESULTS["ushort"], yaml="unsigned short int", cxx="unsigned short int",
+                            lib_make="unsigned short int rv = (unsigned short int)(40000 + (acc % 100));", c_decl="unsigned short int rv;")
+KIND_RESULTS.append("ushortint")
+
 
 def F(name, result, params, **kw):
     d = {"name": name, "result": result, "params": params, "kind": "func"}
